@@ -163,7 +163,11 @@ class CFG:
             if ctx.loop is not None:
                 ctx.loop.continues.append(n)
             return []
-        self._may_raise_edge(n, ctx)
+        if not isinstance(s, (ast.Import, ast.ImportFrom, ast.Pass, ast.Global,
+                              ast.Nonlocal)):
+            # imports of modules of the analysed package are treated as
+            # non-raising (they are resolved when the package is loaded)
+            self._may_raise_edge(n, ctx)
         return [(n, None)]
 
     def _leave(self, n, ctx, target, label):
